@@ -5,6 +5,7 @@ package pppoe
 import (
 	"context"
 	"encoding/binary"
+	"fmt"
 	"net"
 	"sync"
 	"time"
